@@ -16,6 +16,6 @@ CONSTANTS
   MaxAdds = 9
 CONSTRAINT Bound
 VIEW View
-INVARIANTS TypeOK Refines ChunksDense InRange NameInverse
+INVARIANTS TypeOK Refines ChunksDense InRange NameInverse FmtFace
 PROPERTIES Legal Stable RefuseFrame DesignAgrees
 CHECK_DEADLOCK FALSE
